@@ -24,8 +24,6 @@ returns bounds / functional flags / solver bounds to the initial state.
 The thorough tier repeats the exhaustive part under three packings / identifier assignments / bound assignments and adds
 seeded random trees with 5-6 leaves over 5 genes (all 32 subsets, all orders of subsets of size <= 3).
 """
-import itertools
-import math
 import os
 import random
 import time
